@@ -3,8 +3,8 @@ use itertools::Itertools;
 use ordermap::OrderSet;
 use samlang_ast::{
   hir::{
-    ClosureTypeDefinition, FunctionType, IdType, Type, TypeDefinition, TypeDefinitionMappings,
-    TypeName,
+    Callee, ClosureTypeDefinition, Expression, FunctionType, IdType, Statement, Type,
+    TypeDefinition, TypeDefinitionMappings, TypeName,
   },
   source,
 };
@@ -115,6 +115,132 @@ pub(super) fn collect_used_generic_types(
   }
   collect_used_generic_types_visitor(&function_type.return_type, generic_types, &mut collector);
   collector
+}
+
+fn collect_used_generic_types_in_expression(
+  expression: &Expression,
+  generic_types: &OrderSet<PStr>,
+  collector: &mut OrderSet<PStr>,
+) {
+  if let Expression::Variable(v) = expression {
+    collect_used_generic_types_visitor(&v.type_, generic_types, collector);
+  }
+}
+
+fn collect_used_generic_types_in_function_type(
+  function_type: &FunctionType,
+  generic_types: &OrderSet<PStr>,
+  collector: &mut OrderSet<PStr>,
+) {
+  for t in function_type.argument_types.iter().chain([function_type.return_type.as_ref()]) {
+    collect_used_generic_types_visitor(t, generic_types, collector);
+  }
+}
+
+/// The generic types mentioned anywhere in a function body.
+pub(super) fn collect_used_generic_types_in_body(
+  statements: &[Statement],
+  return_value: &Expression,
+  generic_types: &OrderSet<PStr>,
+  collector: &mut OrderSet<PStr>,
+) {
+  for statement in statements {
+    match statement {
+      Statement::Not { name: _, operand } => {
+        collect_used_generic_types_in_expression(operand, generic_types, collector)
+      }
+      Statement::Binary { name: _, operator: _, e1, e2 } => {
+        collect_used_generic_types_in_expression(e1, generic_types, collector);
+        collect_used_generic_types_in_expression(e2, generic_types, collector);
+      }
+      Statement::IndexedAccess { name: _, type_, pointer_expression, index: _ } => {
+        collect_used_generic_types_visitor(type_, generic_types, collector);
+        collect_used_generic_types_in_expression(pointer_expression, generic_types, collector);
+      }
+      Statement::Call { callee, arguments, return_type, return_collector: _ } => {
+        match callee {
+          Callee::FunctionName(f) => {
+            collect_used_generic_types_in_function_type(&f.type_, generic_types, collector);
+            for t in &f.type_arguments {
+              collect_used_generic_types_visitor(t, generic_types, collector);
+            }
+            if f.name.type_name.module_reference.is_none()
+              && generic_types.contains(&f.name.type_name.type_name)
+            {
+              collector.insert(f.name.type_name.type_name);
+            }
+          }
+          Callee::Variable(v) => {
+            collect_used_generic_types_visitor(&v.type_, generic_types, collector)
+          }
+        }
+        for e in arguments {
+          collect_used_generic_types_in_expression(e, generic_types, collector);
+        }
+        collect_used_generic_types_visitor(return_type, generic_types, collector);
+      }
+      Statement::ConditionalDestructure {
+        test_expr,
+        tag: _,
+        bindings,
+        s1,
+        s2,
+        final_assignments,
+      } => {
+        collect_used_generic_types_in_expression(test_expr, generic_types, collector);
+        for (_, t) in bindings.iter().flatten() {
+          collect_used_generic_types_visitor(t, generic_types, collector);
+        }
+        for (_, t, e1, e2) in final_assignments {
+          collect_used_generic_types_visitor(t, generic_types, collector);
+          collect_used_generic_types_in_expression(e1, generic_types, collector);
+          collect_used_generic_types_in_expression(e2, generic_types, collector);
+        }
+        collect_used_generic_types_in_body(s1, &Expression::Int31Zero, generic_types, collector);
+        collect_used_generic_types_in_body(s2, &Expression::Int31Zero, generic_types, collector);
+      }
+      Statement::IfElse { condition, s1, s2, final_assignments } => {
+        collect_used_generic_types_in_expression(condition, generic_types, collector);
+        for (_, t, e1, e2) in final_assignments {
+          collect_used_generic_types_visitor(t, generic_types, collector);
+          collect_used_generic_types_in_expression(e1, generic_types, collector);
+          collect_used_generic_types_in_expression(e2, generic_types, collector);
+        }
+        collect_used_generic_types_in_body(s1, &Expression::Int31Zero, generic_types, collector);
+        collect_used_generic_types_in_body(s2, &Expression::Int31Zero, generic_types, collector);
+      }
+      Statement::LateInitDeclaration { name: _, type_ } => {
+        collect_used_generic_types_visitor(type_, generic_types, collector)
+      }
+      Statement::LateInitAssignment { name: _, assigned_expression } => {
+        collect_used_generic_types_in_expression(assigned_expression, generic_types, collector)
+      }
+      Statement::StructInit { struct_variable_name: _, type_, expression_list } => {
+        for t in type_.type_arguments.iter() {
+          collect_used_generic_types_visitor(t, generic_types, collector);
+        }
+        for e in expression_list {
+          collect_used_generic_types_in_expression(e, generic_types, collector);
+        }
+      }
+      Statement::EnumInit { enum_variable_name: _, enum_type, tag: _, associated_data_list } => {
+        for t in enum_type.type_arguments.iter() {
+          collect_used_generic_types_visitor(t, generic_types, collector);
+        }
+        for e in associated_data_list {
+          collect_used_generic_types_in_expression(e, generic_types, collector);
+        }
+      }
+      Statement::ClosureInit { closure_variable_name: _, closure_type, function_name, context } => {
+        for t in closure_type.type_arguments.iter().chain(&function_name.type_arguments) {
+          collect_used_generic_types_visitor(t, generic_types, collector);
+        }
+        collect_used_generic_types_in_function_type(&function_name.type_, generic_types, collector);
+        collect_used_generic_types_in_expression(context, generic_types, collector);
+      }
+    }
+  }
+  collect_used_generic_types_in_expression(return_value, generic_types, collector);
 }
 
 pub(super) fn type_application(type_: &Type, replacement_map: &HashMap<PStr, Type>) -> Type {
